@@ -193,6 +193,19 @@ example : narguments exBytes = some 3 := by decide +kernel
 example : Spec.values exMsg =
     [(115, .arg (.str [104, 101, 108, 108, 111])), (98, .arg (.blob [1, 2, 3])),
      (105, .arg (.w32 0x7fffffff))] := by decide
+/-- the float hypothesis of `vmessage_eq_spec`/`three_constructors_agree` is met by the exact
+    conversions `widenF32`/`narrowF64` on the floats 0.25, -1.5, +inf, a quiet NaN with payload,
+    the smallest subnormal and FLT_MAX -/
+example : ∀ v ∈ [0x3e800000, 0xbfc00000, 0x7f800000, 0x7fc12345, 0x00000001, 0x7f7fffff],
+    narrowF64 (widenF32 v) = v := by decide +kernel
+example : vmessage narrowF64 (some (List.replicate 16 170)) [47, 97] [105, 102]
+      (promote widenF32 [105, 102] [.w32 5, .w32 0x3e800000]) =
+    amessage (some (List.replicate 16 170)) [47, 97] [105, 102] [.w32 5, .w32 0x3e800000] := by
+  decide +kernel
+example : avmessage (some (List.replicate 24 170)) [47, 97]
+      (ArgVal.listOf [84, 105, 105] [.w32 5, .w32 7]) =
+    some ⟨some [47, 97, 0, 0, 44, 84, 105, 105, 0, 0, 0, 0, 0, 0, 0, 5, 0, 0, 0, 7, 170, 170, 170, 170],
+      20, false⟩ := by decide +kernel
 /-- the witness of F1: the type string "[ii]" has 2 arguments -/
 example : narguments [47, 97, 0, 0, 44, 91, 105, 105, 93, 0, 0, 0, 0, 0, 0, 1, 0, 0, 0, 2] = some 2 := by
   decide +kernel
